@@ -1078,7 +1078,8 @@ class IgnoresDB(object):
 
     def open(self, filename):
         self.filename = filename
-        fd = open(self.filename)
+        # Written as UTF-8 by flush (utils.file.AtomicFile).
+        fd = open(self.filename, encoding='utf8')
         for line in utils.file.nonCommentNonEmptyLines(fd):
             try:
                 line = line.rstrip('\r\n')
